@@ -144,7 +144,7 @@ class C18(Property):
         ]
         graphs = corpus + [gen_graph(rng, k) for k in range(n)]
         lines, meta = [], []
-        for status_case in pmap(provk.run_case, graphs, timeout=120, workers=6):
+        for status_case in pmap(provk.run_case, graphs, timeout=900, workers=6):
             case, status, real = status_case
             if status != "ok":
                 ctx.fail("build_graph:" + status, f"graph {case['idx']}: {str(real)[:300]}", {"graph": case})
@@ -189,7 +189,7 @@ class C18(Property):
                 ctx.disagree("build_graph vs model", f"graph {case['idx']}: real `{exp}`, model `{g}`", {"graph": case})
         # ---- end to end -------------------------------------------------------------------------
         rcases = _recov_cases(rng, quick)
-        for case, status, r in pmap(recov.run_case, rcases, timeout=240, workers=6):
+        for case, status, r in pmap(recov.run_case, rcases, timeout=900, workers=6):
             if status != "ok":
                 ctx.fail("run:" + status, f"{case['name']}: {str(r)[:300]}", {"recovery": case})
                 continue
